@@ -16,6 +16,15 @@ Put(f, i, v) == (i :> v) @@ f
 TGet(t, id) == IF id \in DOMAIN t THEN t[id] ELSE 0
 Tup(s) == [i \in 1..Len(s) |-> s[i]]
 
+(* ---- binary layout (family 18, serial version 1): 2 preamble longs; total and counters as 8-byte LE ---- *)
+LE(x, n) == [i \in 1..n |-> (x \div (256 ^ (i - 1))) % 256]
+Val8(x) == LE(x, 4) \o <<0, 0, 0, 0>>        \* non-negative values below 2^31
+EncCM(st, sh) ==
+  LET empty == st.total = 0 IN
+  <<2, 1, 18, IF empty THEN 1 ELSE 0, 0, 0, 0, 0>> \o LE(st.w, 4) \o <<st.d>> \o sh \o <<0>>
+  \o (IF empty THEN <<>>
+      ELSE Val8(st.total) \o [i \in 1..(8 * st.d * st.w) |-> Val8(st.tab[(i - 1) \div 8])[((i - 1) % 8) + 1]])
+
 TInit == l = 1 /\ obj = <<>> /\ gh = <<>>
 TrRun == IsEv("Run") /\ obj' = <<>> /\ gh' = <<>>
 
@@ -71,6 +80,8 @@ TrChk ==
             /\ q.est = e /\ q.lb = e
             /\ e >= TGet(g.truth, q.x)
             /\ e <= st.total
+  /\ (On("C12") /\ "img" \in DOMAIN Ev) =>
+        [i \in 1..Len(Ev.img) |-> Ev.img[i]] = EncCM(obj[Ev.id], [i \in 1..2 |-> Ev.sh[i]])
   /\ On("C18") => Ev.len = 16 + (IF obj[Ev.id].total = 0 THEN 0 ELSE 8 * (1 + obj[Ev.id].d * obj[Ev.id].w))
   /\ UNCHANGED <<obj, gh>>
 
